@@ -206,8 +206,10 @@ func c28field(kind, path string) string {
 		return "proposer"
 	case path == "/fact/proposed_at":
 		return "proposedAt"
-	case path == "/fact/operations/#/#":
+	case path == "/fact/operations/#/#", path == "/fact/operations/#":
 		return "operations"
+	case path == "/signs/#":
+		return "signs"
 	case path == "/fact/node":
 		return "node"
 	case path == "/fact/start":
@@ -307,6 +309,61 @@ func runC28(c *Ctx) error {
 				c.Eval(1)
 				c.Count("verdict", how)
 				report(kind, c28field(kind, l2[li].path), mut, det, mb)
+			}
+			// the order of a list that is hashed (signs of an operation, expel facts, operations of a proposal): rotate it
+			{
+				var paths []string
+				var walk func(prefix string, node interface{})
+				walk = func(prefix string, node interface{}) {
+					switch t := node.(type) {
+					case map[string]interface{}:
+						for k, v := range t {
+							walk(prefix+"/"+k, v)
+						}
+					case []interface{}:
+						if len(t) >= 2 {
+							a, _ := json.Marshal(t[0])
+							z, _ := json.Marshal(t[len(t)-1])
+							if string(a) != string(z) {
+								paths = append(paths, prefix)
+							}
+						}
+						for _, v := range t {
+							walk(prefix+"/#", v)
+						}
+					}
+				}
+				walk("", tree)
+				sort.Strings(paths)
+				for _, path := range paths {
+					var t2 interface{}
+					_ = json.Unmarshal(b, &t2)
+					// descend to the list at `path` (paths with /# inside are lists within lists: only top-level lists are rotated)
+					if strings.Contains(path, "/#") {
+						continue
+					}
+					cur := t2
+					keys := strings.Split(strings.TrimPrefix(path, "/"), "/")
+					var parent map[string]interface{}
+					for _, k := range keys {
+						parent, _ = cur.(map[string]interface{})
+						if parent == nil {
+							break
+						}
+						cur = parent[k]
+					}
+					lst, ok := cur.([]interface{})
+					if !ok || parent == nil {
+						continue
+					}
+					rot := append(append([]interface{}{}, lst[1:]...), lst[0])
+					parent[keys[len(keys)-1]] = rot
+					mb, _ := json.Marshal(t2)
+					det, how := c28verdict(enc, mb, hNetworkID)
+					c.Eval(1)
+					c.Count("verdict", "order:"+how)
+					report(kind, c28field(kind, path+"/#")+"[order]", "rotated", det, mb)
+				}
 			}
 			// relabel the fact's kind: INIT ballot fact <-> suffrage-confirm ballot fact
 			if kind == "init" || kind == "sc" {
